@@ -15,6 +15,7 @@
    * lnGamma is external (scipy): every formula takes the value(s) `g` of lnGamma at the shape
      parameter(s) as explicit arguments; for integer and half-integer shapes the harness passes the
      closed form `ln (gam_half k)`, otherwise a certificate value. *)
+(* NOTE: definitions only; all proofs are in Proofs/C04_*.v *)
 From CV Require Import Base.Tac Base.Cmp.
 From Coq Require Import QArith Reals.
 From Interval Require Import Tactic.
@@ -133,6 +134,9 @@ Definition gd_logdet (f : gform) (scalar : bool) (dim : nat) (p : list R) : R :=
 Definition gauss_diag_logpdf (f : gform) (scalar : bool) (dim : nat) (p mean x : list R) : R :=
   gauss_canon dim (gd_logdet f scalar dim p) (gd_quad f p mean x).
 
+(* sqrtprec stored in DIA format with off-diagonal bands: logdet summed over all stored band entries *)
+Definition gauss_band_logdet (data : list R) : R := rsum (map (fun v => - ln (v ^ 2)) data).
+
 (* Lognormal: pdf(x) = Gaussian.pdf(log x) * prod(1/x), logpdf = log(pdf); gl = Gaussian logpdf at log x *)
 Definition lognormal_logpdf (gl : R) (x : list R) : R := ln (exp gl * rprod (map (fun x => 1 / x) x)).
 
@@ -180,20 +184,45 @@ Fixpoint qdet_fuel (fuel : nat) (A : list (list Q)) : Q :=
 Definition qdet (A : list (list Q)) : Q := qdet_fuel (length A) A.
 
 (* dense (full-matrix) Gaussian input M in form f, evaluation offset d = x - mean.
-   C is a certificate for the inverse where the code inverts (cov, sqrtcov forms);
+   y is a certificate for cov^{-1} d where the code inverts (cov, sqrtcov forms): it is CHECKED (cov y = d);
    dcov = determinant of the covariance the code's logdet is the log of, quad = |sqrtprec d|^2.
-   sqrtcov=M : the code forms cov = M M^T ; sqrtprec=M : quad = |M d|^2, logdet from det(M M^T). *)
-Definition gauss_dense_cert (f : gform) (n : nat) (M C : list (list Q)) (d : list Q) (dcov quad : Q) : bool :=
+   sqrtcov=M : the code forms cov = M M^T (the docstring says M^T M);
+   sqrtprec=M : quad = |M d|^2, logdet from det(M M^T) = det(M^T M). *)
+Definition gauss_cov_of (f : gform) (n : nat) (M : list (list Q)) : list (list Q) :=
+  match f with FSqrtcov | FSqrtprec => qmm n M (qtr n M) | _ => M end.
+Definition gauss_dense_cert (f : gform) (n : nat) (M : list (list Q)) (y d : list Q) (dcov quad : Q) (rank_obs : nat) : bool :=
+  Nat.eqb rank_obs n && Qlt_bool 0 dcov &&
   match f with
-  | FCov => qll_eqb (qmm n M C) (qident n) && Qeq_bool (qdet M) dcov && Qeq_bool (qdotq d (qmv C d)) quad
+  | FCov => ql_eqb (qmv M y) d && Qeq_bool (qdet M) dcov && Qeq_bool (qdotq d y) quad
   | FPrec => Qeq_bool (qdet M * dcov) 1 && Qeq_bool (qdotq d (qmv M d)) quad
   | FSqrtcov => let S := qmm n M (qtr n M) in
-                qll_eqb (qmm n S C) (qident n) && Qeq_bool (qdet S) dcov && Qeq_bool (qdotq d (qmv C d)) quad
-  | FSqrtprec => Qeq_bool (qdet (qmm n M (qtr n M)) * dcov) 1 && Qeq_bool (let y := qmv M d in qdotq y y) quad
+                ql_eqb (qmv S y) d && Qeq_bool (qdet S) dcov && Qeq_bool (qdotq d y) quad
+  | FSqrtprec => Qeq_bool (qdet (qmm n M (qtr n M)) * dcov) 1 && Qeq_bool (let z := qmv M d in qdotq z z) quad
   end.
+(* the documented reading of sqrtcov=M is cov = M^T M: quadratic form certificate for that reading *)
+Definition gauss_sqrtcov_doc_cert (n : nat) (M : list (list Q)) (y d : list Q) (dcov quad : Q) : bool :=
+  let S := qmm n (qtr n M) M in ql_eqb (qmv S y) d && Qeq_bool (qdet S) dcov && Qeq_bool (qdotq d y) quad.
 (* refusal of the cov / prec setters: dense non-symmetric input *)
 Definition gauss_dense_refused (f : gform) (n : nat) (M : list (list Q)) : bool :=
   match f with FCov | FPrec => negb (qsym n M) | _ => false end.
+
+(* what happens to an input of a given storage kind (cholmod is not installed):
+   value, refusal by the setter, refusal by logpdf (logdet = None), or -- sqrtprec stored in scipy's DIA format with
+   off-diagonal bands -- a "logdet" summed over ALL stored band entries (padding included) *)
+Inductive gkind := KScalar | KVector | KDenseDiag | KDenseFull | KSpDiag | KSpFull | KSpDiaBands.
+Inductive gout := OutValue | OutRefusedInit | OutRefusedLogpdf | OutBandLogdet.
+Definition gauss_outcome (dia_fixed : bool) (f : gform) (k : gkind) (sym : bool) : gout :=
+  match k with
+  | KDenseFull => match f with FCov | FPrec => if sym then OutValue else OutRefusedInit | _ => OutValue end
+  | KSpFull => OutRefusedLogpdf
+  | KSpDiaBands => match f with FSqrtprec => if dia_fixed then OutRefusedLogpdf else OutBandLogdet | _ => OutRefusedLogpdf end
+  | _ => OutValue
+  end.
+Definition gout_eqb (a b : gout) : bool :=
+  match a, b with OutValue, OutValue | OutRefusedInit, OutRefusedInit | OutRefusedLogpdf, OutRefusedLogpdf
+                | OutBandLogdet, OutBandLogdet => true | _, _ => false end.
+(* the band "logdet": some stored entry is 0 (scipy pads the bands) -> +inf, i.e. logpdf = -inf *)
+Definition band_has_zero (data : list Q) : bool := existsb (fun v => Qeq_bool v 0) data.
 (* the diagonal branch is taken when all off-diagonal entries vanish *)
 Definition q_is_diag (M : list (list Q)) : bool :=
   forallb (fun ir => forallb (fun jv => Nat.eqb (fst ir) (fst jv) || Qeq_bool (snd jv) 0)
@@ -276,10 +305,11 @@ Definition gmrf_true_rank (order : nat) (b : bc_t) (twod : bool) (dim : nat) : n
   | _, BPeriodic => pred dim
   | _, _ => if twod then dim - 4 else dim - 2     (* order 2, neumann: affine functions (2-d: bilinear) are annihilated *)
   end.
+Definition qpow (a : Q) (k : nat) : Q := fold_right Qmult 1%Q (repeat a k).
 Definition gmrf_detarg (order : nat) (b : bc_t) (P : list (list Q)) : option Q :=
   match b, order with
   | BZero, _ => Some (qdet P)
-  | _, O => Some 1%Q
+  | _, O => Some (qpow (nth 0 (nth 0 P []) 0%Q) (pred (length P)))     (* P = c I: the dim-1 "largest" eigenvalues *)
   | _, S O => Some (pdet1 P)
   | BPeriodic, _ => Some (pdet1 P)
   | _, _ => None
@@ -338,7 +368,7 @@ Ltac c04_red :=
        uniform_logpdf uniform_pdf1
        gamma_term gamma_logpdf invgamma_term invgamma_logpdf beta_term beta_logpdf gam_half
        mhn_doc_term mhn_getter_beta mhn_getter_gamma mhn_logpdf mhn_doc_logpdf
-       gauss_logupdf gauss_canon gd_sqrtprec gd_logdet1 gd_quad gd_logdet gauss_diag_logpdf lognormal_logpdf
+       gauss_logupdf gauss_canon gd_sqrtprec gd_logdet1 gd_quad gd_logdet gauss_diag_logpdf lognormal_logpdf gauss_band_logdet
        gmrf_logpdf lmrf_logpdf lmrf_pdf cmrf_logpdf INR].
 Ltac c04_encl := c04_red; interval with (i_prec 80).
 Ltac c04_both := split; [vm_compute; reflexivity | c04_encl].
